@@ -296,8 +296,12 @@ def _shards_sets(tier):
         sh += [dict(p=3, mode=0, l0=0, h1=0, l1=1)] + _pins(dict(p=3, mode=0, l0=0, h1=0, l1=2), a1=ALL4)
         sh += [dict(p=3, mode=0, l0=1, a0=1, h1=0, l1=1)] + _pins(dict(p=3, mode=0, l0=1, a0=1, h1=0, l1=2), a1=ALL4)
         sh += _pins(dict(p=3, l0=1, a0=1, h1=1), mode=[0, 6], l1=[0, 1, 2])
+        # production orders matter to the work-list of FIRST: the left-recursive shapes [S -> A, S -> S x, A -> ..]
+        # and [S -> S x, S -> A .., ..] are also handed over as lists in other orders
+        sh += _pins(dict(p=3, l0=1, a0=1, h1=0, l1=2, a1=0), mode=[3, 4, 6])
+        sh += _pins(dict(p=3, l0=2, a0=0, h1=0, l1=2, a1=1), mode=[0, 1, 5])
         return sh
-    for mode in (0, 6):
+    for mode in (0, 3, 6):
         sh += _pins(dict(p=3, mode=mode, l0=0), h1=[0, 1])
         sh += _pins(dict(p=3, mode=mode, l0=1), a0=ALL4, h1=[0, 1])
         sh += _pins(dict(p=3, mode=mode, l0=2), a0=ALL4, h1=[0, 1])
